@@ -125,7 +125,9 @@ def check_pairs(ctx, case) -> None:
     B = np.array([p[1] for p in pts], dtype=float)
     if shape:
         A, B = A.reshape(shape), B.reshape(shape)
+    keepA, keepB = A.copy(), B.copy()
     raw = n.compute(A, B)
+    ctx.check(bool(np.array_equal(A, keepA) and np.array_equal(B, keepB)), "argument-mutated", case, {})
     ctx.check(np.shape(raw) == A.shape, "shape", case, {"got": list(np.shape(raw)), "want": list(A.shape)})
     Y = np.asarray(raw, dtype=float).reshape(-1)
     Yc = call(n, B, A).reshape(-1)
